@@ -18,8 +18,11 @@ VARIABLES g,               \* the graph being rewritten
 vars == <<g, inp, cfg, phase, seen>>
 
 NoSub  == [variety |-> "", gain |-> NONE, voa |-> NONE, dp |-> NONE]
-NewAmp(name) == [name |-> name, type |-> "Edfa", succ |-> {}, pred |-> {}, len |-> 0, coef |-> 0, variety |-> "",
-                 conIn |-> NONE, conOut |-> NONE, attIn |-> NONE, loss |-> 0, sub |-> <<NoSub>>, origin |-> "", coefTab |-> <<>>, opt |-> "", phys |-> <<>>]
+\* an inserted amplifier: an Edfa on a single-band line, a Multiband_amplifier (one amplifier per design band) otherwise
+NewAmp(name) == [name |-> name, type |-> IF cfg.bands = 1 THEN "Edfa" ELSE "Multiband_amplifier",
+                 succ |-> {}, pred |-> {}, len |-> 0, coef |-> 0, variety |-> "",
+                 conIn |-> NONE, conOut |-> NONE, attIn |-> NONE, loss |-> 0, sub |-> [b \in 1..cfg.bands |-> NoSub],
+                 origin |-> "", coefTab |-> <<>>, opt |-> "", phys |-> <<>>]
 
 -----------------------------------------------------------------------------
 (* calculate_new_length on integer metres: number of equal spans for a fibre of length L.                      *)
@@ -106,15 +109,18 @@ PadSpan(e) ==
 AmpTodo == Amps(g) \ seen
 PrevLoss(i) == LET p == Prev1(g, i) IN IF IsLine(g[p]) THEN SpanLoss(g, p) ELSE 0
 SetAmp(i) ==
-    LET u == g[i].sub[1]
-        \* a library model is eligible when its band contains the design band (edges included)
+    LET \* a library model is eligible when its band contains the design band (edges included)
         ok == {x \in cfg.lib : cfg.ampBand[1] <= cfg.siBand[1] /\ cfg.siBand[2] <= cfg.ampBand[2]}
-        v == IF u.variety = "" THEN CHOOSE x \in ok : TRUE ELSE u.variety
-        s == [variety |-> v,
-              gain |-> IF u.gain = NONE \/ cfg.powerMode THEN PrevLoss(i) ELSE u.gain,
-              voa  |-> IF u.voa = NONE THEN 0 ELSE u.voa,
-              dp   |-> IF cfg.powerMode THEN (IF u.dp = NONE THEN 0 ELSE u.dp) ELSE NONE]
-    IN /\ g' = [g EXCEPT ![i] = [@ EXCEPT !.variety = v, !.sub = <<s>>]]
+        any == CHOOSE x \in ok : TRUE
+        \* one amplifier per band (a user Multiband_amplifier without description gets one per design band)
+        old == IF Len(g[i].sub) = cfg.bands THEN g[i].sub ELSE [b \in 1..cfg.bands |-> NoSub]
+        set(u) == [variety |-> IF u.variety = "" THEN any ELSE u.variety,
+                   gain |-> IF u.gain = NONE \/ cfg.powerMode THEN PrevLoss(i) ELSE u.gain,
+                   voa  |-> IF u.voa = NONE THEN 0 ELSE u.voa,
+                   dp   |-> IF cfg.powerMode THEN (IF u.dp = NONE THEN 0 ELSE u.dp) ELSE NONE]
+        new == [b \in 1..cfg.bands |-> set(old[b])]
+    IN /\ g' = [g EXCEPT ![i] = [@ EXCEPT !.variety = IF @ = "" THEN (IF cfg.bands = 1 THEN new[1].variety ELSE any) ELSE @,
+                                          !.sub = new]]
        /\ seen' = seen \cup {i}
 
 -----------------------------------------------------------------------------
